@@ -1,0 +1,39 @@
+//go:build verif
+
+// Contracts for the govc verifier (/verif). This file is comment-only: with the build tag
+// `verif` off it does not exist for the compiler; with it on it adds no code.
+// Blocks are keyed by function (receiver type + name) and by loop ordinal inside the function.
+
+package mocrelay
+
+//@ func validHexString
+//@   serves C11
+//@   pure
+//@   ensures result == isLowerHex(s)
+//@   loop 1 as k
+//@     invariant forall(j, 0, k, hexLower(s[j]))
+
+//@ func validID
+//@   serves C11
+//@   pure
+//@   ensures result == nipValidID(id)
+
+//@ func validPubkey
+//@   serves C11
+//@   pure
+//@   ensures result == nipValidPubkey(pubkey)
+
+//@ func validSig
+//@   serves C11
+//@   pure
+//@   ensures result == nipValidSig(sig)
+
+//@ func validKind
+//@   serves C11
+//@   pure
+//@   ensures result == nipValidKind(kind)
+
+//@ func validTag
+//@   serves C11
+//@   pure
+//@   ensures result == nipValidTag(tag)
